@@ -9,13 +9,13 @@ impl Duration {
     pub open spec fn ns(self) -> nat { self.secs as nat * 1_000_000_000 + self.nanos as nat }
     pub open spec fn wf(self) -> bool { self.nanos < 1_000_000_000 }
     // the order the code's `<` uses (derived lexicographic order == std's Ord for Duration)
-    pub open spec fn lt(self, o: Duration) -> bool { self.secs < o.secs || (self.secs == o.secs && self.nanos < o.nanos) }
-    pub open spec fn le(self, o: Duration) -> bool { self.lt(o) || self == o }
+    pub open spec fn dlt(self, o: Duration) -> bool { self.secs < o.secs || (self.secs == o.secs && self.nanos < o.nanos) }
+    pub open spec fn dle(self, o: Duration) -> bool { self.dlt(o) || self == o }
 }
 // under std's type invariant (nanos < 1e9) the lexicographic order is the order of the time values
 pub proof fn lemma_duration_lt_is_time_order(a: Duration, b: Duration)
     requires a.wf(), b.wf(),
-    ensures a.lt(b) <==> a.ns() < b.ns(), (a == b) <==> a.ns() == b.ns(),
+    ensures a.dlt(b) <==> a.ns() < b.ns(), (a == b) <==> a.ns() == b.ns(),
 {
     assert(a.ns() == a.secs * 1_000_000_000 + a.nanos);
     assert(b.ns() == b.secs * 1_000_000_000 + b.nanos);
